@@ -1,5 +1,6 @@
 (* C01 — every evaluated point is a genuine point of the search space.  Statements only. *)
 Require Import Base StopRun Converter ConverterFacts CoreOpt Tracker Algos Driver DriverFacts CoreFacts AlgoFacts AlgoLift Grid GridFacts C16_proofs.
+Require Import Pop PopFacts.
 
 (* (i) the move operators: for EVERY tape of draws (huge, fractional, +-inf samples included) a returned
    position has every index in [0, len-1] *)
@@ -72,4 +73,32 @@ Proof. vm_compute. reflexivity. Qed.
 (* what happens with a NaN sample (outside the theorem's hypothesis): the position carries int64 min *)
 Example C01_nan_sample_refuted :
   conv2pos [[0; 1; 2]] (fun _ => true) 5 [XNaN] [] 0 = Ok ([int64_min], [], 0).
+Proof. vm_compute. reflexivity. Qed.
+
+(* ---------- the iterate step of the population optimizers (theories/Pop.v; float vectors are oracle tape entries) ----------
+   whatever the draws and the (NaN-free) oracle vectors: the emitted position lies in the box and satisfies the constraints,
+   and at least one constraint evaluation was made *)
+Theorem C01_pso_iterate : forall sp cons fuel rrp, dims_ok sp -> forall cur t p t' c, length cur = length sp -> nan_free t ->
+  pso_iterate sp cons fuel rrp cur t = Ok (p, t', c) -> emit_ok sp cons p /\ is_suffix t' t /\ 0 < c.
+Proof. exact pso_iterate_ok. Qed.
+Print Assumptions C01_pso_iterate.
+Theorem C01_spiral_iterate : forall sp cons fuel rrp, dims_ok sp -> forall t p t' c, nan_free t ->
+  spiral_iterate sp cons fuel rrp t = Ok (p, t', c) -> emit_ok sp cons p /\ is_suffix t' t.
+Proof. exact spiral_iterate_ok. Qed.
+Print Assumptions C01_spiral_iterate.
+Theorem C01_de_iterate : forall sp cons fuel, dims_ok sp -> forall pop target t p t' c, length target = length sp -> nan_free t ->
+  de_iterate sp cons fuel pop target t = Ok (p, t', c) -> emit_ok sp cons p /\ is_suffix t' t /\ 0 < c.
+Proof. exact de_iterate_ok. Qed.
+Print Assumptions C01_de_iterate.
+(* recombination of in-box parents (evolution strategy, genetic algorithm), then the constraint test / move_climb fallback *)
+Theorem C01_cross_or_climb : forall sp cons fuel, dims_ok sp -> forall parents t p t' c, Forall (in_box sp) parents -> nan_free t ->
+  cross_or_climb sp cons fuel parents t = Ok (p, t', c) -> emit_ok sp cons p /\ is_suffix t' t /\ 0 < c.
+Proof. exact cross_or_climb_ok. Qed.
+Print Assumptions C01_cross_or_climb.
+
+(* a NaN in the spiral's float vector is the one way out of the box (np.clip keeps NaN, astype(int) makes it -2^63) *)
+Example C01_spiral_nan_refuted : spiral_point [[0; 1; 2]] [XNaN] = [int64_min].
+Proof. reflexivity. Qed.
+Example C01_pop_nonvacuous :
+  de_iterate [[0; 1; 2; 3]; [0; 1; 2]] (fun _ => true) 10 4 [1; 1] [DZ 0; DZ 2; DZ 3; DF 5 (-1); DF (-3) 0; DZ 1; DZ 0] = Ok ([2; 1], [], 1).
 Proof. vm_compute. reflexivity. Qed.
